@@ -302,6 +302,35 @@ def s_and_then(defn):
     return f
 
 
+def s_and(defn):
+    # Result::and / Option::and: the second value if the first is Ok / Some, else the first's Err / None
+    good = 0 if defn == RES else 1
+
+    def f(ip, frame, bb, st, callee, args, dty):
+        out = []
+        for s2, var, pay in split_enum(ip, st, args[0], "and"):
+            if var == good:
+                out.append((s2, args[1]))
+            else:
+                out.append((s2, mk(defn, var, *pay)))
+        return out
+    return f
+
+
+def s_or(defn):
+    good = 0 if defn == RES else 1
+
+    def f(ip, frame, bb, st, callee, args, dty):
+        out = []
+        for s2, var, pay in split_enum(ip, st, args[0], "or"):
+            if var == good:
+                out.append((s2, mk(defn, var, *pay)))
+            else:
+                out.append((s2, args[1]))
+        return out
+    return f
+
+
 def s_or_else(defn):
     good = 0 if defn == RES else 1
 
@@ -713,15 +742,51 @@ def s_iter_fold(ip, frame, bb, st, callee, args, dty):
     return out
 
 
+def _for_each_opaque(ip, frame, bb, st, f, dty):
+    """for_each over an iterator the analysis knows nothing about (caller-supplied, A4: it ends): the closure runs an unknown number
+    of times on arbitrary items; the state after the call is the least fixpoint of `state JOIN closure(state)` (widened)"""
+    from .interp import Unsupported
+    from .join import join_into
+    fv = ip.read_raw(st, f.root, f.steps) if isinstance(f, VRef) else f
+    if not isinstance(fv, VClos) or fv.defn not in ip.f.bodies:
+        raise Unsupported("for_each with %r" % (fv,))
+    body = ip.f.bodies[fv.defn]
+    if body["arg_count"] != 2:
+        raise Unsupported("for_each closure arity")
+    item_ty = subst(body["locals"][2]["ty"], fv.env or {})
+    symmark = len(ip.tab.info)
+    inv = st.copy()
+    for n in range(14):
+        mark = len(ip.log)
+        s_in = inv.copy()
+        item = ip.fresh_value(s_in, item_ty, "for_each item")
+        changed = False
+        for s2, _rv in ip.call_value(frame, bb, s_in, f, [item], dty):
+            new, c = join_into(ip, inv, s2, symmark, ("for_each", frame.fid if frame is not None else 0, bb), widen=n >= 4)
+            if c:
+                inv, changed = new, True
+        if not changed:
+            return [(inv, UNIT)]
+        del ip.log[mark:]
+    raise Unsupported("for_each: no fixpoint")
+
+
 def s_iter_for_each(ip, frame, bb, st, callee, args, dty):
+    from .interp import Unsupported
     it = _iter_arg(ip, st, args[0])
     out = []
-    for s0, items in _iter_items(ip, st, it, limit=16):
+    try:
+        mark = len(ip.log)
+        groups = _iter_items(ip, st.copy(), it, limit=16)
+    except Unsupported:
+        del ip.log[mark:]
+        return _for_each_opaque(ip, frame, bb, st, args[1], dty)
+    for s0, items in groups:
         cur = [s0]
         for item in items:
             nxt = []
             for s2 in cur:
-                nxt.extend(s3 for s3, _rv in ip.call_value(frame, bb, s2, args[1], [item], T.UNIT_TY if hasattr(T, "UNIT_TY") else dty))
+                nxt.extend(s3 for s3, _rv in ip.call_value(frame, bb, s2, args[1], [item], dty))
             cur = nxt
         out.extend((s2, UNIT) for s2 in cur)
     return out
@@ -1663,6 +1728,10 @@ def install(ip):
     E["std::result::Result::<T, E>::and_then"] = s_and_then(RES)
     E["std::option::Option::<T>::and_then"] = s_and_then(OPT)
     E["std::result::Result::<T, E>::or_else"] = s_or_else(RES)
+    E["std::result::Result::<T, E>::and"] = s_and(RES)
+    E["std::option::Option::<T>::and"] = s_and(OPT)
+    E["std::result::Result::<T, E>::or"] = s_or(RES)
+    E["std::option::Option::<T>::or"] = s_or(OPT)
     E["std::option::Option::<T>::or_else"] = s_or_else(OPT)
     E["std::result::Result::<T, E>::unwrap_or"] = s_unwrap_or(RES, False)
     E["std::option::Option::<T>::unwrap_or"] = s_unwrap_or(OPT, False)
@@ -1700,6 +1769,7 @@ def install(ip):
     E["<std::slice::Iter<'a, T> as std::iter::Iterator>::for_each"] = s_iter_for_each
     E["core::slice::iter::<impl std::iter::IntoIterator for &'a [T]>::into_iter"] = s_slice_iter
     E["std::iter::Iterator::rev"] = s_iter_rev
+    E["std::iter::Iterator::for_each"] = s_iter_for_each
     E["<std::iter::Rev<I> as std::iter::Iterator>::find"] = s_iter_find
     E["<std::iter::Rev<I> as std::iter::Iterator>::fold"] = s_iter_fold
     E["std::ops::RangeInclusive::<Idx>::new"] = s_range_incl_new
@@ -1750,6 +1820,7 @@ def install(ip):
     E["core::slice::<impl [T]>::split_at"] = s_split_at
     E["core::slice::<impl [T]>::split_at_checked"] = s_split_at_checked
     E["core::slice::<impl [T]>::get"] = s_slice_get
+    E["core::slice::<impl [T]>::get_mut"] = s_slice_get
     E["core::slice::<impl [T]>::first_chunk"] = s_first_chunk
     E["core::slice::<impl [T]>::split_first_chunk"] = s_split_first_chunk
     E["core::slice::index::<impl std::ops::Index<I> for [T]>::index"] = s_index
